@@ -242,6 +242,9 @@ def report():
         print("%-8s test-surviving=%d detected=%d" % (k, n, c))
     print()
     for e in ev:
+        if e.get("errors"):
+            print("HARNESS-ERROR %s:%d [%s] %s" % (e["file"], e["line"], e["op"], e["errors"][0][:300].replace("\n", " ")))
+    for e in ev:
         if not e["caught"]:
             print("UNDETECTED %s:%d [%s]\n   - %s\n   + %s" % (e["file"], e["line"], e["op"], e["old"].strip(), e["new"].strip()))
 
